@@ -275,12 +275,25 @@ impl DelphiLogicalLinesReconstructor {
 
     fn offset_for_token(&self, formatted_tokens: &FormattedTokens, token_idx: usize) -> usize {
         let mut pos = 0;
+        // mirrors the line break that `reconstruct` inserts after a single-line comment
+        let mut must_break = false;
         for (idx, token) in formatted_tokens.tokens().enumerate() {
+            let is_eof = matches!(token.0.get_token_type(), TokenType::Eof);
+            let has_break = if token.1.is_ignored() {
+                token.0.get_leading_whitespace().contains(['\n', '\r'])
+            } else {
+                token.1.newlines_before > 0
+            };
+            if must_break && !has_break && !is_eof {
+                pos += self.nl_len();
+            }
             pos += self.ws_len(token);
             if idx >= token_idx {
                 break;
             }
             pos += token.0.get_content().len();
+            must_break =
+                matches!(token.0.get_token_type(), TokenType::Comment(ck) if ck.is_singleline());
         }
         pos
     }
